@@ -296,7 +296,8 @@ func (x *Exec) canInline(fn *ssa.Function) bool {
 		}
 		path := pkg.Pkg.Path()
 		allowed := strings.HasPrefix(path, modPath) || strings.HasPrefix(path, "github.com/go-openapi/spec") ||
-			strings.HasPrefix(path, "github.com/go-openapi/analysis")
+			strings.HasPrefix(path, "github.com/go-openapi/analysis") ||
+			fn.String() == "(*github.com/go-openapi/loads.Document).Spec" // the getter of the loaded document: return d.spec
 		if !allowed {
 			return false
 		}
